@@ -230,6 +230,14 @@ class FrameOracle:
         out = []
         sig = op_sig(op)
         recv = op.get("obj") if op["op"] in RECEIVER_OPS else None
+        # plain arrays passed as arguments must not be aliased by any object afterwards
+        for arr in getattr(st, "last_args", []):
+            for k, d in st.objs.items():
+                try:
+                    if arr.size and (np.shares_memory(arr, d.values) or any(np.shares_memory(arr, c) for c in d.coords.coords)):
+                        out.append("C03:shared-state:%s:argument-array" % sig)
+                except Exception:
+                    pass
         for k, s0 in pre.items():
             if k not in st.objs:
                 continue
